@@ -122,7 +122,7 @@ def l0_suite(funcs, quick=1500, thorough=40000, monitor=None, nontrivial_keys=No
                 out = a.split()[1:]
                 if nontrivial_keys is None or nontrivial_keys(fn, t[2:], out):
                     res.nontrivial += 1
-            if a != mline:
+            if a != mline and fn != 'probe':
                 res.mismatches.append(dict(suite=res.name, case=c, impl=a, model=mline))
             if monitor:
                 monitor(ctx, res, fn, c, a.split()[1:], mline.split()[1:], spec)
@@ -323,6 +323,13 @@ def l2_suite(profile, quick=60, thorough=1500, native=True, name=None, extra_mon
         for k, c in enumerate(cases):
             res.evaluations += 1
             a = impl[k] if k < len(impl) else '<missing>'
+            if c.split()[1:2] == ['probe']:
+                # checked on the implementation alone
+                res.nontrivial += 1
+                if a.split()[1:2] != ['ok']:
+                    res.property_failures.append(dict(suite=res.name, case=c, impl=a[:800],
+                                                      what='probe ' + c.split()[2] + ': ' + ' '.join(a.split()[2:])[:400]))
+                continue
             mline, spec = split_spec(model[k] if k < len(model) else '<missing>')
             a2, pairs = cmpmod.split_native(a)
             iops = [x.split() for x in cmpmod.canon(a2, False).split(' ; ')]
@@ -715,6 +722,11 @@ register('C14', [l1_suite(['rows', 'plain', 'cb'], name='l1f', quick=250, monito
 # ---------------------------------------------------------------- C18 (node encryption)
 def c18_monitor(ctx, res, fn, case, impl, model, spec):
     t = case.split()
+    if fn == 'probe':
+        if impl[:1] != ['ok']:
+            res.property_failures.append(dict(suite=res.name, case=case, impl=' '.join(impl)[:600],
+                                              what='probe ' + t[2] + ': ' + ' '.join(impl[1:])[:300]))
+        return
     if fn != 'crypto':
         return
     def fail(what, shape=None):
@@ -742,7 +754,7 @@ def c18_monitor(ctx, res, fn, case, impl, model, spec):
             fail(f'a box written by the legacy format ({n} bytes) is not read back: {impl[0]}',
                  shape='legacy_box_longer_than_32_bytes' if n > 32 and impl[:1] == ['ok'] else None)
 
-register('C18', [l0_suite(['crypto'], monitor=c18_monitor, quick=1500, thorough=40000)],
+register('C18', [l0_suite(['crypto', 'probe'], monitor=c18_monitor, quick=1500, thorough=40000)],
          ['blake2b, NaCl secretbox and the legacy open are supplied to the model as tables computed by the harness from golang.org/x/crypto and the verif hooks'])
 
 # ---------------------------------------------------------------- C20 (table definitions)
